@@ -134,7 +134,10 @@ def _replay_withdraw(m):
     steps += _mints([('pool_manager', [('uA', m['pm_balance_A']), ('uB', m['pm_balance_B']), (LP, MINLIQ)]),
                      ('lp1', [(LP, m['holder_lp'])]),
                      ('sink', [(LP, m['lp_supply'] - m['holder_lp'] - MINLIQ)])])
-    steps.append({'op': 'execute', 'contract': 'pool_manager', 'sender': 'lp1', 'funds': [coin_j(LP, m['lp_amount'])],
+    extra = m.get('_choices', {}).get('extra_coin', 0) == 1
+    if extra:
+        steps += _mints([('lp1', [('uA', 5)])])
+    steps.append({'op': 'execute', 'contract': 'pool_manager', 'sender': 'lp1', 'funds': [coin_j(LP, m['lp_amount'])] + ([coin_j('uA', 5)] if extra else []),
                   'msg': {'withdraw_liquidity': {'pool_identifier': 'p1'}}})
     return {'setup': {}, 'steps': steps}, len(steps) - 1
 
@@ -182,7 +185,14 @@ def s3(I):
     pre = b.snapshot()
     p0 = get_pool(I, 'p1')
     fixed0 = [clone(p0.get(f)) for f in ('asset_denoms', 'asset_decimals', 'pool_type', 'pool_fees', 'lp_denom', 'pool_identifier')]
-    st, resp = ch.execute('lp1', PM, withdraw_msg('p1'), [coin_v(LP, amt)])
+    extra = I.choose(2, 'extra_coin') == 1          # a second coin attached next to the LP tokens: must be refused, not kept
+    if extra:
+        b.set('lp1', 'uA', 5)
+    st, resp = ch.execute('lp1', PM, withdraw_msg('p1'), [coin_v(LP, amt)] + ([coin_v('uA', 5)] if extra else []))
+    if extra:
+        I.observe('status', 'ok' if st == 'ok' else 'err')
+        I.check('withdrawal_with_an_extra_coin_refused', st != 'ok')
+        return
     ex_a = I.ctx.fdiv(simp(x * amt), S)
     ex_b = I.ctx.fdiv(simp(y * amt), S)
     if st != 'ok':
